@@ -407,6 +407,9 @@ def json_loads_value(it, fr, content):
     if isinstance(content, SBytes) and content.kind == 'canon':
         used('json.load on canonical bytes: Parse(Canon(v)) = v, a fresh copy (A3)')
         return clone(it, content.snapshot, deep=True)
+    if isinstance(content, SBytes) and content.kind == 'cat' and getattr(content, 'ws_suffix', False):
+        used('json.load ignores trailing white space after the document')
+        return json_loads_value(it, fr, content.parts[0])
     if isinstance(content, Opaque) and content.what == 'notjson':
         raise PyExc(json.JSONDecodeError('Expecting value', '', 0))
     if isinstance(content, SAny):
